@@ -99,6 +99,9 @@ def contains(st: St, c: SV, x: SV):
         if xt is None: return z3.BoolVal(False)
         i = S.fresh("i!in", z3.IntSort())
         return z3.Exists([i], z3.And(i >= 0, i < c.n, c.arr[i] == xt))
+    if type(c).__name__ == "SIter" and c.kind == "range" and len(c.args) == 1:
+        if isinstance(x, SPrim) and x.ty == "int":
+            return z3.And(x.t >= 0, x.t < c.args[0].t)
     raise Unsupported(f"`in` on {c}")
 
 
